@@ -404,6 +404,10 @@ func (m pathmap) str(prefix, indent, curindent string) string {
 }
 
 func (m pathmap) add(path []string, v interface{}) {
+	if len(path) == 0 {
+		// A value at the root path has no element to name it: show it under "".
+		path = []string{""}
+	}
 	if len(path) == 1 {
 		m[path[0]] = v
 		return
